@@ -36,3 +36,14 @@ From KV Require Import StateGen StateBase StateExportProofs.
 Theorem C06_state_as_modelled : state_export = modelled_state_export.
 Proof. exact state_export_as_modelled. Qed.
 Print Assumptions C06_state_as_modelled.
+
+(* all sub-spines of a spine share its header: in every imported document a node that is not a header itself has the
+   header type (text and 0-based spine id) of the cell above it on its spine path, so under EVERY option set the two
+   are selected or deleted together - selection keeps or removes whole spine paths through splits and joins *)
+From KV Require Import TreeProofs HeaderSelfProofs.
+Theorem C06_spine_path_shares_header : forall bad text d, loads bad text = IOk d ->
+  forall i h, i < List.length (d_nodes d) -> n_header (get_node d i) = Some h -> h <> i ->
+  exists p, n_parent (get_node d i) = Some p /\ header_type d i = header_type d p /\
+            (forall o, spine_selected o (header_type d i) = spine_selected o (header_type d p)).
+Proof. exact spine_path_shares_header. Qed.
+Print Assumptions C06_spine_path_shares_header.
